@@ -88,6 +88,21 @@ CLAIMS = {
              "and checks the real builders against an independent reference exhaustively up to 3 (thorough 4) persons in all orders.",
         technique="Coq proof (general for wthh/bg; bounded-exhaustive vm_compute for fg/eg/ehe/sn) + exhaustive differential correspondence U3",
         design="6/C12"),
+    "C13": dict(
+        text="Theorems (exact rational arithmetic): the documented factors; round trip = identity; composition; conversion commutes with "
+             "sums. Obligation regenerated every run: every conversion node of every dumped graph reads the same-named column of another "
+             "unit with exactly the documented factor (name grammar parsed in Gallina, soundness proved). Engine runs: all unit variants "
+             "of flows requested together, inputs supplied in another unit, group sums.",
+        technique="Coq proof (TimeConv.v) + reflective check of the regenerated loader graph + differential engine runs",
+        design="6/C13"),
+    "C15": dict(
+        text="Theorem (any column type, rule base, population): along an evaluation the set of columns constant on the classes of an "
+             "equivalence is preserved by pointwise nodes whose arguments are all in the set and by aggregates. Obligation regenerated "
+             "every run: a dataflow analysis over every dumped graph proves every group-suffixed rule/conversion node constant on its "
+             "group except downstream of the five listed known (node, argument) pairs, each of which is exhibited on the real engine "
+             "on every run. Engine runs check every group-level column of the default graph on generated populations.",
+        technique="Coq proof (Levels.group_constant) + reflective dataflow on the regenerated loader graph + directed engine search",
+        design="6/C15"),
     "C18": dict(
         text="Theorems (for all schedules and all rational arguments): the model of piecewise_polynomial returns the "
              "mathematical value at every finite point, thresholds included; reflective shape checkers (zero below, "
